@@ -19,9 +19,19 @@
       increasing order; [hamming_bytes a b] / [hamming_bools a b] = how many there are;
       [good_value P data wmin wmax t] = [t] is a byte string as long as [data], its
       Hamming distance from [data] lies in the window, and P accepts it ([good_bools]
-      likewise). *)
+      likewise).
+    - processes (Model/BruteForceProc.v): [table] = the package-level
+      binomialCoefficientsLookupTable every worker's seek reads; [table_zero] its value
+      before init(), [proc_boot] = the state main starts with (init() has filled it);
+      [seek_t t] / [bf_outcome_t t] = setCombinationID / the schedule relation reading
+      table [t]; [pcall] = one BruteForce call (item type, GOMAXPROCS, maxConcurrency,
+      arguments); [process calls results] = a process boots and makes [calls] in this
+      order with [results] (any number of calls, any worker counts; the first call is
+      the first use of the package); [call_alone c r] = [bf_outcome] for the call [c]
+      on its own, i.e. the relation all theorems above the process section speak about. *)
 From CSS Require Import Lib.Base Lib.Cases Model.Comb Proofs.Comb
-     Model.BruteForce Model.BruteForceCases Proofs.BruteForce Proofs.BruteForceValues.
+     Model.BruteForce Model.BruteForceCases Proofs.BruteForce Proofs.BruteForceValues
+     Model.BruteForceProc Proofs.BruteForceProc.
 
 (** ** The partition of the combination IDs into worker slices *)
 
@@ -223,6 +233,89 @@ Theorem C07_admits_sound : forall (A : Type) (flip : list Z -> list A -> outcome
   bf_outcome flip P ifail gomax maxconc data isz wmin wmax res.
 Proof. exact @admits_sound. Qed.
 Print Assumptions C07_admits_sound.
+
+(** ** Processes: the first call, later calls, package state *)
+
+(** when main starts, every cell of the lookup table that binomialCoefficientFast can
+    read holds the binomial coefficient (mod 2^64) *)
+Theorem C07_boot_table : forall n k, 0 <= n <= CACHE_MAX_N -> 0 <= k <= CACHE_MAX_K ->
+  tget proc_boot n k = binom (Z.to_nat n) (Z.to_nat k) mod W64.
+Proof. exact boot_table_binom. Qed.
+Print Assumptions C07_boot_table.
+
+(** a worker that seeks through such a table gets the start of its slice exactly as
+    in Model/Comb.v, whatever the slice *)
+Theorem C07_seek_reads_table : forall t, table_ok t -> forall m k id, seek_t t m k id = seek m k id.
+Proof. exact seek_t_ok. Qed.
+Print Assumptions C07_seek_reads_table.
+
+(** the results of a process are exactly the lists in which every call has an outcome
+    of the state-free relation: nothing depends on how many calls came before, on
+    their item types, windows or worker counts, or on the call being the first one *)
+Theorem C07_process_history_free : forall calls results,
+  process calls results <-> Forall2 call_alone calls results.
+Proof. exact process_history_free. Qed.
+Print Assumptions C07_process_history_free.
+
+(** and no call changes the package state *)
+Theorem C07_process_state_kept : forall calls results t',
+  proc_run proc_boot calls results t' -> t' = proc_boot /\ table_ok t'.
+Proof. exact process_state_kept. Qed.
+Print Assumptions C07_process_state_kept.
+
+(** the property's result clauses for the call at ANY place [i] of ANY process
+    (i = 0: the first use of the package, with any GOMAXPROCS / maxConcurrency):
+    no error; if a satisfying candidate exists in the window the result is sound
+    and of minimal distance; otherwise (nil, nil) *)
+Theorem C07_process_call_bools : forall calls results i, process calls results ->
+  forall gomax maxconc data isz wmin wmax P ifail res,
+  nth_error calls i = Some (PBools gomax maxconc data isz wmin wmax P ifail) ->
+  nth_error results i = Some res ->
+  std flip_bools data isz wmin wmax gomax ifail ->
+  (exists o, res = Ok o) /\
+  ((exists s, candidate (total_bits data isz) wmin wmax s /\ satisfies flip_bools P data s) ->
+   exists r, res = Ok (Some r) /\ candidate (total_bits data isz) wmin wmax r /\
+             satisfies flip_bools P data r /\
+             forall s, candidate (total_bits data isz) wmin wmax s -> satisfies flip_bools P data s ->
+                       (length r <= length s)%nat) /\
+  ((forall s, candidate (total_bits data isz) wmin wmax s -> ~ satisfies flip_bools P data s) ->
+   res = Ok None).
+Proof. exact process_call_bools. Qed.
+Print Assumptions C07_process_call_bools.
+
+Theorem C07_process_call_bytes : forall calls results i, process calls results ->
+  forall gomax maxconc data isz wmin wmax P ifail res,
+  nth_error calls i = Some (PBytes gomax maxconc data isz wmin wmax P ifail) ->
+  nth_error results i = Some res ->
+  std flip_bytes data isz wmin wmax gomax ifail ->
+  (exists o, res = Ok o) /\
+  ((exists s, candidate (total_bits data isz) wmin wmax s /\ satisfies flip_bytes P data s) ->
+   exists r, res = Ok (Some r) /\ candidate (total_bits data isz) wmin wmax r /\
+             satisfies flip_bytes P data r /\
+             forall s, candidate (total_bits data isz) wmin wmax s -> satisfies flip_bytes P data s ->
+                       (length r <= length s)%nat) /\
+  ((forall s, candidate (total_bits data isz) wmin wmax s -> ~ satisfies flip_bytes P data s) ->
+   res = Ok None).
+Proof. exact process_call_bytes. Qed.
+Print Assumptions C07_process_call_bytes.
+
+(** the correspondence check of a fresh process (case CFresh: all BruteForce calls
+    of a re-executed harness, the first one searched by several workers): if it
+    passes, the observed calls and results are a process of the model *)
+Theorem C07_fresh_check_sound : forall calls,
+  check (CFresh calls) = true -> process (map pcall_of calls) (map call_res calls).
+Proof. exact fresh_check_sound. Qed.
+Print Assumptions C07_fresh_check_sound.
+
+(** the state is not idle in the model: 64 bools, distance 3, four workers - the
+    second worker's slice starts at ID 10416 = [5; 35; 50].  A worker reading the
+    table before it is filled panics in setCombinationID, one reading a table of
+    which 32 rows are filled starts somewhere else. *)
+Example C07_ex_table_matters :
+  seek_t proc_boot 63 3 10416 = Ok [5; 35; 50] /\
+  seek_t table_zero 63 3 10416 = Panic /\
+  (exists s, seek_t (table_rows_filled 32) 63 3 10416 = s /\ s <> Ok [5; 35; 50]).
+Proof. split; [exact (proj1 ex_seek_booted)|]. split; [exact ex_seek_zero_table|exact ex_seek_half_table]. Qed.
 
 (** ** The hypotheses are satisfiable by non-trivial values *)
 
